@@ -20,6 +20,11 @@ Violation keys  (<family>:<clause>[:<input class>]):
                                    unicode-decimal-digit, unicode-numeric, look-alike, format-char, unicode-letter,
                                    unicode-punctuation, unicode-symbol, combining-mark)
   si:<format|roundtrip|mantissa-range>:<femto..tera>
+Input-class suffixes added by the hardening pass (mcx/props/c19_hard.py holds the new families):
+  :narrow-float (float32 / float16 samples)  :int-dtype (numpy integer / bool samples)  :int-params (integer mu, std)
+  :extreme (outside the 30 central decades / |dB| > 300)  :big-python-int (python int >= 2^62)  :int-min (most negative value of
+  an integer type; no longer enumerated)  :numpy-int (dec2bin with numpy integer v or d)  rcos:differs-from-scalar-call:<kind>  <fn>:input-modified
+  <fn>:shared-input:*  str2array:*:<alphabet>-numpy-print | -spelling | -long | dtype-spelling | python-numeral
 """
 from __future__ import annotations
 
@@ -597,13 +602,15 @@ def rcos_points(alpha, T, dt=np.float64):
 
 
 def rcos_ints(T, dt=None):
-    """integer sample points: every integer up to ceil(1.5/T)+1 and (extreme but legal) the smallest and largest value of the type"""
+    """integer sample points: every integer up to ceil(1.5/T)+1 and (extreme but legal) the largest value of the type and its
+    negative.  The most negative value of a signed type (whose |x| does not exist in the type) is outside the statements by
+    the policy of HARDEN_BRIEF and is not enumerated (observation in notes/C19.md)"""
     m = int(math.ceil(1.5 / T)) + 1
     if m > 1000:                      # a symbol period far below one: 0, +-1, +-2 and the extremes
         m = 2
     pts = set(range(-m, m + 1))
     ii = np.iinfo(dt if dt is not None else np.int64)
-    pts.update([ii.min, ii.max, -ii.max] if ii.min < 0 else [ii.max])
+    pts.update([ii.max, -ii.max] if ii.min < 0 else [ii.max])
     return sorted(p for p in pts if ii.min <= p <= ii.max)
 
 
@@ -650,7 +657,7 @@ def fam_rcos(case):
     else:
         xs = rcos_ints(T, sdt)
         if form == 'int-scalar':
-            xs = sorted(set(xs) | {-2 ** 63 - 1, 2 ** 63, -10 ** 30, 10 ** 30})      # python ints are unbounded
+            xs = sorted(set(xs) | {-2 ** 63 - 1, 2 ** 63 + 1, -10 ** 30, 10 ** 30})  # python ints are unbounded (-2**63 itself: see rcos_ints)
     n = len(xs)
     lenient = form in RCOS_LENIENT
     if form in RCOS_SCALARS:
@@ -715,16 +722,11 @@ def fam_rcos(case):
     # + 2 pi eps, i.e. |dH| <= 2 (1 + 1/alpha) eps + 4 eps; 16 (1 + 1/alpha) eps is asserted (alpha = 0: values are 0 or 1)
     agree_tol = 16 * (1 + (1 / alpha if alpha > 0 else 1)) * eps
     index = {x: i for i, x in enumerate(xs)}
-    kind0 = kind
     for i, x in enumerate(xs):
         ax = abs(x)
         band = flat < ax <= cut
         A.item((alpha, T, form, ptype, x), (kind, float(H[i]).hex()), nontrivial=bool(band or ax in (flat, half, cut)))
         where = f'rcos(x={x!r}, alpha={al!r}, T={TT!r}) as {form}'
-        if k == 'i' and np.iinfo(sdt).min in (x, -x):
-            kind = kind0 + ':int-min'          # the most negative value of the integer type (|x| is not representable in the type)
-        else:
-            kind = kind0
         if not (-4 * eps <= H[i] <= 1 + 4 * eps):
             A.v(f'rcos:range:{kind}', f'{where} = {H[i]!r} outside [0,1]')
         j = index.get(-x)
@@ -735,7 +737,7 @@ def fam_rcos(case):
         beyond = Fraction(ax) > true_cut * (1 + guard)
         if beyond and not abs(H[i]) <= 1e-15:
             A.v(f'rcos:vanish:{kind}', f'{where} = {H[i]!r}, expected 0 beyond (1+alpha)/(2T) = {cut}')
-        if form != 'scalar' and abs(x) < 2 ** 1023 and kind == kind0:      # (the int-min points are reported by their clause only)
+        if form != 'scalar' and abs(x) < 2 ** 1023:
             near_cut = not exact and abs(Fraction(ax) - true_cut) <= 4 * Fraction(eps) * true_cut
             near_flat = not exact_flat and abs(Fraction(ax) - true_flat) <= 4 * Fraction(eps) * true_flat
             if not (near_cut or near_flat):
@@ -746,8 +748,11 @@ def fam_rcos(case):
 
 
 # ===================================================================== dec2bin
-D2B_TYPES = {'int': int, 'bool': bool, 'int8': np.int8, 'uint8': np.uint8, 'int16': np.int16, 'uint16': np.uint16, 'int32': np.int32,
-             'uint32': np.uint32, 'int64': np.int64, 'uint64': np.uint64}
+# v and d are scalar parameters: python int / bool, np.int32, np.int64 and 0-d arrays of those (policy of HARDEN_BRIEF; unsigned and
+# 8/16-bit numpy scalars are outside the statement - they happen to work except a np.uint64 digit count, see notes/C19.md)
+D2B_TYPES = {'int': int, 'bool': bool, 'int32': np.int32, 'int64': np.int64, 'arr0d-int64': lambda v: np.array(v, dtype=np.int64),
+             'arr0d-int32': lambda v: np.array(v, dtype=np.int32)}
+_D2B_RANGE = {'int32': np.int32, 'int64': np.int64, 'arr0d-int64': np.int64, 'arr0d-int32': np.int32}
 
 
 def _d2b_fits(v, tname):
@@ -755,7 +760,7 @@ def _d2b_fits(v, tname):
         return True
     if tname == 'bool':
         return v in (0, 1)
-    ii = np.iinfo(D2B_TYPES[tname])
+    ii = np.iinfo(_D2B_RANGE[tname])
     return ii.min <= v <= ii.max
 
 
@@ -1448,7 +1453,18 @@ def run(ctx):
              'resemble; thorough: 2488 more symbols/punctuation/marks at every position and every assigned code point at one position '
              'of 2 base texts and alone; white-space characters other than U+0020 are not judged. '
              'si: 30 exponent groups x (6 mantissas as decimal literal and as product, decade constants and both float '
-             'neighbours, integers) x k in {0,1,3} x units {s,Hz}')
+             'neighbours, integers) x k in {0,1,3} x units {s,Hz}. '
+             'HARDENING PASS: every family additionally runs over the sample types bool, int8..uint64, float16, float32, 0-d arrays, numpy '
+             'scalars, nested / length-1 / empty / strided containers, write-protected arguments (compared byte for byte afterwards); db '
+             'family over every decade of the double range (denormals .. 1.8e308), python ints up to 1e300, |dB| up to 3000; Q out to '
+             '+-1.8e308; gaus at 12 scaled / offset (mu, std), integer sample grids of every integer type and integer mu/std; rcos with '
+             '28 input forms, float32/float16 grids with their own corner neighbours, type extremes of every integer type, alpha/T as '
+             'float / numpy scalars / keywords, T = 1e-9, 1e9 (thorough 1e-12, 2.5e-11, 1e6), agreement of every form with the scalar call; '
+             'dec2bin with d = 0, default and keyword digits, every numpy integer type for v and d, 17 too-large values per d; si with '
+             'numpy scalars (float64/32/16, int64/32, uint8, 0-d), k in {2, 6, np.int64(1)}, units m, Ohm, none, default/keyword calls, '
+             'x up to 1e308; str2array: numpy print forms (padding, runs of blanks, "3."), 17 further spellings (value or ValueError), '
+             '3-row bit patterns, rows of 13..4097 elements, python numerals outside the grammar, numpy dtype spellings, positional dtype; '
+             'one shared writable sample array through a whole parameter sweep')
     ctx.assume('numpy/scipy reference functions (log10 rounding, scipy.stats.norm.sf, quad) are correct; python Fraction arithmetic is exact')
     ctx.assume('continuum quantifiers (all positive reals, all real dB values) are covered at the listed grid points only')
     ctx.assume('where the statement is silent the oracle is silent: lossy explicit casts (complex->real, fractional->int, ->bool) are '
@@ -1457,6 +1473,13 @@ def run(ctx):
                'names comma and space as separators, the library documents "whitespace": white-space characters other than U+0020 '
                '(tab, newline, U+001C-1F, NEL, NBSP, U+1680, U+2000-200A, U+2028/2029/202F/205F/3000) are neither required to '
                'separate nor required to raise and are left out of the invalid-character alphabets')
+
+    ctx.assume('sample types: identities are asserted to the precision of the floating type numpy evaluates the samples in (float16 for '
+               'float16/bool/int8/uint8, float32 for float32/int16/uint16, float64 otherwise); numpy scalar types other than np.float64 may be '
+               'refused with TypeError/ValueError (documented for db/dbm and rcos), a returned value is judged; x = 0, negative v of dec2bin, '
+               'np.uint64 digit counts, empty rows / leading or trailing semicolons, newlines and numpy dtype spellings on 0/1-only texts are '
+               'not judged; spellings the statement does not list (padding other than numpy print, doubled / mixed separators, plus signs, '
+               '".5", leading or trailing comma, TAB) may be refused with ValueError but must not yield a different array')
 
     ctx.sample({'family': 'si', 'item': "si(2.5e-07, 's', k=1) -> '250.0 ns': 250.0 x 1e-9 == x within 0.05e-9; x/1e-9 in [1,1000)"})
     ctx.sample({'family': 'str2array', 'item': "str2array('1+2i, -1.5-0.5i; 2i, 3', dtype=None) == [[1+2j,-1.5-0.5j],[2j,3]] (complex)"})
@@ -1511,15 +1534,15 @@ def run(ctx):
     d2b += [('d2b', 8, 0, 256, 'int', 'int', 'default')] + [('d2b', d, 0, 2 ** d, 'int', 'int', 'kw') for d in (0, 1, 5, 8)]
     d2b += [('d2b', d, 0, 2 ** d, 'bool', 'int', 'pos') for d in (0, 1, 2)]
     nptypes = [t for t in D2B_TYPES if t not in ('int', 'bool')]
-    dmax_np = 10 if quick else 16         # quick: every (v, d) with d <= 10 in every type pairing, then d = 16 in the widest
     for vt in nptypes + ['int']:
-        for dtn in ['int'] + [t for t in nptypes if t != 'uint64']:
+        for dtn in ['int'] + nptypes:
             if (vt, dtn) == ('int', 'int'):
                 continue
-            aligned = dtn in ('int', vt) or vt == 'int'      # v typed with d plain, d typed with v plain, both of the same type
-            if quick and not aligned:
-                continue
-            for d in list(range(0, (dmax_np if aligned else 12) + 1)) + ([16] if quick and vt in ('int32', 'uint16', 'int64', 'uint64') else []):
+            # quick: every (v, d) with d <= 10 in every type pairing (0-d arrays: d <= 8, their arithmetic is slow), d = 16 for the
+            # numpy scalar types; thorough: d <= 16 (0-d arrays 12)
+            slow = 'arr0d' in vt or 'arr0d' in dtn
+            dmax_np = (8 if slow else 10) if quick else (12 if slow else 16)
+            for d in list(range(0, dmax_np + 1)) + ([16] if quick and not slow else []):
                 n = 2 ** d
                 for lo in range(0, n, 8192):
                     d2b.append(('d2b', d, lo, min(lo + 8192, n), vt, dtn, 'pos'))
